@@ -1016,3 +1016,8 @@ package tds
 //@ # and has no effect on the wire or the queues (clauses [closed-reported] above)
 //@ func (*Channel).Close returns (err)
 //@   ensures [closed] tdsChan.closed
+//@ # closing the connection cancels its context and closes the transport, whatever state the
+//@ # connection context is in (C13)
+//@ func (*Conn).Close returns (err)
+//@   requires [wired] tds.ctxCancel != nil && tds.tdsChannels != nil
+//@   ensures [transport-closed] tds.conn.$tclosed
